@@ -233,10 +233,20 @@ inductive MKind where
   | dir | symlink | hardlink | other
   deriving DecidableEq, Repr
 
+/-- one archive member as the container reader presents it: `size` is what the member *header* announces
+    (`File.Size`: `hdr.Size`, resp. `int64(UncompressedSize64)` — it can exceed the data that follows, or be
+    negative after the conversion), `content` is the data the archive really holds for it -/
 structure Member where
   kind : MKind
   name : List Char
   content : Bytes
+  size : Int
+
+/-- `io.ReadAll(f)` on a member: the container reader streams the data that is there and reports an error when it
+    does not amount to the announced size (tar: `io.ErrUnexpectedEOF`, zip: `io.ErrUnexpectedEOF` / `zip.ErrFormat`).
+    Nothing is ever allocated from the announced size. -/
+def readAll (m : Member) : Except String Bytes :=
+  if m.size = m.content.length then .ok m.content else .error "read"
 
 /-- `tarArchive.Next` (`continue` on anything but a regular file) and `newZipArchive`'s filter -/
 def nextFile : List Member → Option (Member × List Member)
@@ -275,16 +285,19 @@ structure ADoc where
   deriving DecidableEq, Repr
 
 /-- the `for { f, err := a.Next(); … add(f) }` loop of `archive.Index`; the builder is created by the first
-    regular member (`once.Do`), so the state is `Option (documents added so far)` -/
-def indexLoop (strip : Int) : List Member → Option (List ADoc) → Option (List ADoc)
+    regular member (`once.Do`), so the state is `Option (documents added so far)`; a read error ends the loop -/
+def indexLoop (strip : Int) : List Member → Option (List ADoc) → Except String (Option (List ADoc))
   | ms, b =>
     match h : nextFile ms with
-    | none => b
+    | none => .ok b
     | some (m, rest) =>
       let docs := b.getD []                 -- once.Do(NewBuilder) on the first regular member
-      let nm := stripComponents m.name strip
-      let docs := if nm.isEmpty then docs else docs ++ [⟨nm, m.content⟩]
-      indexLoop strip rest (some docs)
+      match readAll m with
+      | .error e => .error e                -- `return err` (no Finish: nothing is written)
+      | .ok contents =>
+        let nm := stripComponents m.name strip
+        let docs := if nm.isEmpty then docs else docs ++ [⟨nm, contents⟩]
+        indexLoop strip rest (some docs)
 termination_by ms => ms.length
 decreasing_by exact nextFile_length h
 
@@ -292,13 +305,15 @@ decreasing_by exact nextFile_length h
     gets a builder before `Finish`, i.e. an empty index; `indexOrig` below is the code before the fix. -/
 def index (strip : Int) (ms : List Member) : Outcome (List ADoc) :=
   match indexLoop strip ms none with
-  | none => .ok []                          -- builder == nil → NewBuilder → Finish: an empty shard
-  | some docs => .ok docs
+  | .error e => .err e
+  | .ok none => .ok []                      -- builder == nil → NewBuilder → Finish: an empty shard
+  | .ok (some docs) => .ok docs
 
 /-- the code before the fix: `builder.Finish()` on a nil `*Builder` -/
 def indexOrig (strip : Int) (ms : List Member) : Outcome (List ADoc) :=
   match indexLoop strip ms none with
-  | none => .panic "nil-builder-finish"
-  | some docs => .ok docs
+  | .error e => .err e
+  | .ok none => .panic "nil-builder-finish"
+  | .ok (some docs) => .ok docs
 
 end ZoektModel.C15
